@@ -263,8 +263,10 @@ func (w *Watcher) handleUnconfirmedEvents(ctx context.Context, logger *zap.Logge
 		contractEvent := event
 		unconfirmed, err := w.toUnconfirmedEvent(&contractEvent)
 		if err != nil {
-			logger.Error("failed to convert to unconfirmed event", zap.Error(err))
-			return nil, err
+			// anyone can publish on the governance contract's event stream: an event that does not decode is
+			// nobody's message; skip it alone instead of dropping the batch and ending the watcher
+			logger.Error("ignore invalid event", zap.String("txId", contractEvent.TxId), zap.Error(err))
+			continue
 		}
 		if unconfirmed.msg.IsAttestTokenVAA() {
 			logger.Info("received a message", zap.String("txId", unconfirmed.TxId), zap.String("blockHash", unconfirmed.BlockHash), zap.String("type", "attest"))
